@@ -348,6 +348,7 @@ vars.equation_replacements = equation_replacements
 vars.msg_LT_server_txt = msg_LT_server_txt 
 vars.msg_LT_server_html = msg_LT_server_html 
 vars.highlight_style = highlight_style 
+vars.highlight_style_unsure = highlight_style_unsure
 vars.number_style = number_style 
 vars.lt_option_map = lt_option_map 
 
